@@ -1,25 +1,558 @@
-"""C18 — persistent signals are never lost; a suspended stage resumes once per signal (engine-level: Mode-A trace differential + monitors; see harness/engine_suites.py)."""
+"""C18 — persistent signals are never lost; a suspended stage resumes once per signal.
+
+Two parts:
+  1. engine level (whole messages, atomic handlers): Mode-A trace differential + monitors, harness/engine_suites.py;
+  2. the two-worker race INSIDE the handlers (signal handler vs. the task result that suspends the stage), at read / CAS
+     granularity: Mode B (harness/modeb.py) on the real engine, every schedule compared with the Lean model
+     `Stab.SignalRace` (driver token `sigrace`, theorems in lean/Stab/Props/C18.lean section `race`), plus
+     implementation-only monitors.
+"""
 from __future__ import annotations
+
+import json
+import logging
+import os
+import shutil
+import time
+from dataclasses import asdict, dataclass
+from typing import Any
 
 from harness import engine_suites
 
 RULE = ("random workflows (1-5 stages, every join type, scripted task outcomes incl. polling / transient / jump / suspend) x "
         "delivery schedules (fifo | random order | random + redelivery of unacknowledged messages | arbitrary incl. early re-polls), "
         "one stage suspends k times, m persistent/transient signals are sent at random moments (before start, while running, after suspension); every op is applied to the REAL engine and the Lean model, the state line after every op is compared; "
-        "a trace is distinct by (spec, op list) and non-trivial when it has >= 8 ops and a non-FIFO choice or an injected op")
+        "a trace is distinct by (spec, op list) and non-trivial when it has >= 8 ops and a non-FIFO choice or an injected op. "
+        "PLUS the signal-vs-suspend race (Mode B, exhaustive per scenario): a workflow g -> d whose task in g answers 'suspend' on its first K executions "
+        "(K in {0,1,2}; K=1 is LedgerTask script 'U'), brought to the state 'RunTask(g) pending, stage RUNNING', with b0 in {0,1} persistent signals already buffered, "
+        "one raced SignalStage (persistent or transient, the real message class) and optionally further pending signals; worker A handles the signal (resp. the RunTask) "
+        "and worker B handles the RunTask (resp. the signal) atomically at EVERY legal DB-call point of A (before A's read, every point between A's read of the stage row "
+        "and its version-checked UPDATE, after A) in BOTH directions, then the queue is drained FIFO; a schedule is distinct by (scenario, direction, injection point) "
+        "and non-trivial when B was really injected inside A; where two signals are pending also signal-vs-signal (lost update on the mailbox) and, thorough tier, "
+        "the nested three-worker family RunTask > signal > signal (monitors only)")
 ASSUMPTIONS = ["delays are abstracted: budget-respecting schedules deliver a delayed message only when no immediate one is pending",
-               "per-workflow circuit breaker disabled in the harness (volatile state outside the model)"]
+               "per-workflow circuit breaker disabled in the harness (volatile state outside the model)",
+               "race suite: Mode B explores the interleavings SQLite's single-writer locking permits at transaction granularity plus all read / CAS windows "
+               "(B atomic inside a window of A, nested to depth 2 in the thorough tier), not every statement-level interleaving of free-running workers (harness/modeb.py)",
+               "race suite: handler_config.concurrency_max_retries has its default (3); backoff delays are shortened through the engine's own environment knobs",
+               "race suite: the task's decision to suspend depends only on how often it ran (executions 1..K suspend)"]
 TRUSTED_BASE = ["Engine model (lean/Stab/Model/Engine.lean) is hand-written; tied to handlers/* by the trace differential on generated schedules only",
-                "not modelled: synthetic stages, mutex/deferred choice, OR-split conditions, pause/resume, timeouts, PostgreSQL backend"]
+                "not modelled: synthetic stages, mutex/deferred choice, OR-split conditions, pause/resume, timeouts, PostgreSQL backend",
+                "SignalRace model (lean/Stab/Model/SignalRace.lean) is hand-written from handlers/signal_stage.py, handlers/run_task/handler.py (_process_result_safely), "
+                "handlers/run_task/result.py (_handle_suspended, _handle_success_like), persistence/sqlite/transaction.py (store_stage CAS), handlers/base.py "
+                "(retry_on_concurrency_error) and persistence/transaction.py (execute_atomic's inner retry); tied to the code by the per-schedule comparison "
+                "(stage status, version delta, mailbox length, queued RunTasks, task executions, each worker's outcome and number of rolled-back transactions, "
+                "and the quiescent state after the drain) on the enumerated schedules only",
+                "the window abstraction in harness/props/c18.py `window_of`: window k of an injection point = number of `SELECT * FROM stage_executions WHERE id` "
+                "reads A has issued + 1 if A has issued its first INSERT/UPDATE/DELETE",
+                "the model collapses the task row into the stage row (both are written in the same commits by these handlers) and the completion chain after a "
+                "non-suspending result into one status `finished`"]
+
+RACE_SUITE = "signal-race-modeb"
+SIG_LOST = "race:persistent-signal-lost"
+SIG_TWICE = "race:signal-applied-twice"
+SIG_MAILBOX = "race:mailbox-not-conserved"
+SIG_STUCK = "race:no-quiescence"
+ROW_READ = "SELECT * FROM stage_executions WHERE id = :id"
+DML = ("INSERT", "INSERT-OR-IGNORE", "UPDATE", "DELETE")
+
+
+# --------------------------------------------------------------------------------------
+# scenarios
+# --------------------------------------------------------------------------------------
+
+@dataclass(frozen=True)
+class Scn:
+    K: int = 1                   # executions 1..K of g's task answer "suspend"
+    pre: int = 0                 # persistent signals handled (buffered) before the race
+    p: bool = True               # the raced signal is persistent
+    post: tuple = ()             # further signals pending during the race, handled after it in FIFO order (True = persistent)
+    down: bool = True            # downstream stage d
+
+    def key(self) -> str:
+        return f"K{self.K}b{self.pre}{'P' if self.p else 'T'}{''.join('p' if x else 't' for x in self.post)}{'d' if self.down else ''}"
+
+    def persistent_total(self) -> int:
+        return self.pre + (1 if self.p else 0) + sum(1 for x in self.post if x)
+
+    def transient_total(self) -> int:
+        return (0 if self.p else 1) + sum(1 for x in self.post if not x)
+
+
+def scn_from(d: dict) -> Scn:
+    return Scn(K=int(d["K"]), pre=int(d["pre"]), p=bool(d["p"]), post=tuple(bool(x) for x in d.get("post", ())), down=bool(d.get("down", True)))
+
+
+def scenarios(thorough: bool) -> list[Scn]:
+    s = [Scn(1, 0, True), Scn(1, 0, False), Scn(1, 1, True), Scn(1, 1, False, down=False), Scn(1, 0, True, (True,)),
+         Scn(2, 0, True, down=False), Scn(2, 0, True, (True,)), Scn(2, 1, True), Scn(0, 0, True), Scn(2, 0, False, (True,), down=False)]
+    if thorough:
+        s += [Scn(1, 0, True, down=False), Scn(1, 0, True, (False,)), Scn(1, 0, False, (True,)), Scn(1, 2, True), Scn(2, 1, False),
+              Scn(2, 1, True, (True,)), Scn(3, 1, True, (True,)), Scn(3, 0, True, (True, True)), Scn(0, 1, True), Scn(0, 0, False), Scn(2, 2, True, (False,))]
+    return s
+
+
+# --------------------------------------------------------------------------------------
+# worker-process side: real engine under Mode B
+# --------------------------------------------------------------------------------------
+
+def _setup_process() -> None:
+    from harness import core
+
+    core.ensure_repo_on_path()
+    logging.disable(logging.CRITICAL)
+
+
+_ENV_CLS = None
+
+
+def _env_class():
+    """modeb.Env + a task type `c18k` that suspends on its first K executions (K from the stage context)."""
+    global _ENV_CLS
+    if _ENV_CLS is not None:
+        return _ENV_CLS
+    from harness import modeb as mb
+    from stabilize.queue.messages import RunTask
+    from stabilize.tasks.interface import Task
+    from stabilize.tasks.result import TaskResult
+
+    class SuspendK(Task):
+        def execute(self, stage):  # noqa: ANN001
+            mb.LEDGER.append((stage.ref_id, "t"))
+            n = sum(1 for x in mb.LEDGER if x[0] == stage.ref_id)
+            if n <= int(stage.context.get("_k", 1)):
+                return TaskResult.suspend()
+            return TaskResult.success(outputs={f"o_{stage.ref_id}": n})
+
+    class Env18(mb.Env):
+        def open(self, create: bool = False):
+            super().open(create)
+            self.processor._handlers[RunTask].task_registry.register("c18k", SuspendK())
+            return self
+
+    _ENV_CLS = Env18
+    return Env18
+
+
+class Lab:
+    def __init__(self) -> None:
+        from harness import core
+        from harness import modeb as mb
+
+        self.mb = mb
+        self.dir = core.scratch_dir()
+        self.env = None
+
+    def close(self) -> None:
+        if self.env is not None:
+            self.env.close()
+        shutil.rmtree(self.dir, ignore_errors=True)
+
+    def base(self, scn: Scn):
+        """RunTask(g) pending, stage RUNNING with `pre` buffered signals, the raced signal and the `post` signals pushed."""
+        from pathlib import Path
+
+        from stabilize.models.stage import StageExecution
+        from stabilize.models.task import TaskExecution
+        from stabilize.queue.messages import SignalStage
+
+        mb = self.mb
+        if self.env is not None:
+            self.env.close()
+        p = Path(self.dir) / f"{scn.key()}.db"
+        for suf in mb.SUFFIXES:
+            q = Path(str(p) + suf)
+            if q.exists():
+                q.unlink()
+        mb.LEDGER.clear()
+        env = _env_class()(p).open(create=True)
+        if scn.K <= 1:
+            g = mb.stage("g", context={"_script": "U" if scn.K == 1 else "S"})
+        else:
+            g = StageExecution(ref_id="g", type="noop", name="g", context={"_k": scn.K},
+                               tasks=[TaskExecution.create(name="t", implementing_class="c18k", stage_start=True, stage_end=True)],
+                               requisite_stage_ref_ids=set())
+        env.create_workflow([g] + ([mb.stage("d", {"g"})] if scn.down else []))
+        env.start()
+        env.drain(max_steps=20, hold=lambda c: c.startswith("RT(g)"))
+        if [c for _, c in env.pending()] != ["RT(g)"] or env.stage_row("g")["status"] != "RUNNING":
+            raise RuntimeError(f"base state not reached: {env.state_line()}")
+
+        def signal(n: int, persistent: bool):
+            return SignalStage(execution_type=env.wf_type, execution_id=env.wf_id, stage_id=env.ids["g"], signal_name=f"s{n}",
+                               signal_data={"n": n}, persistent=persistent)
+
+        for i in range(scn.pre):
+            env.push(signal(i, True))
+            env.deliver(env.find("SG(g)")[0])
+        env.push(signal(scn.pre, scn.p))
+        for j, pp in enumerate(scn.post):
+            env.push(signal(scn.pre + 1 + j, pp))
+        row = env.stage_row("g")
+        if row["buffered"] != scn.pre or row["status"] != "RUNNING" or mb.LEDGER:
+            raise RuntimeError(f"base state not reached (mailbox): {env.state_line()}")
+        meta = {"ids": dict(env.ids), "refs": dict(env.refs), "wf_id": env.wf_id, "wf_type": env.wf_type, "v0": row["version"], "b0": row["buffered"]}
+        snap = mb.snapshot(env)
+        self.env = env
+        return env, snap, meta
+
+
+def _fix(e, meta) -> None:
+    e.refs, e.ids, e.wf_id, e.wf_type = meta["refs"], meta["ids"], meta["wf_id"], meta["wf_type"]
+
+
+def _norm(sql: str) -> str:
+    return " ".join((sql or "").split())
+
+
+def window_of(calls, at: int) -> int:
+    """Model window of the injection point `at` of worker A: micro-steps A has completed before that DB call
+    (each read of the stage row is one; the first DML — the version-checked UPDATE, or the plain mark — is the act)."""
+    reads = sum(1 for c in calls if c.idx < at and c.kind == "exec" and _norm(c.sql).startswith(ROW_READ))
+    acted = any(c.idx < at and c.kind == "exec" and c.tag.split(".")[0] in DML for c in calls)
+    return reads + (1 if acted else 0)
+
+
+def _rollbacks(op) -> int:
+    return sum(1 for k, d in op.txns if k == "rollback" and "UPDATE.stage_executions" in d)
+
+
+def _stage_commit(op):
+    for k, d in op.txns:
+        if k == "commit" and "UPDATE.stage_executions" in d:
+            return d
+    return None
+
+
+def sig_outcome(op) -> str:
+    if isinstance(op.result, str) and op.result.startswith("raised"):
+        return f"raised.r{_rollbacks(op)}"
+    d = _stage_commit(op)
+    out = "dropped" if d is None else ("delivered" if "INSERT.queue_messages" in d else "buffered")
+    return f"{out}.r{_rollbacks(op)}"
+
+
+def run_outcome(op, executed: bool) -> str:
+    if isinstance(op.result, str) and op.result.startswith("raised"):
+        return f"raised.r{_rollbacks(op)}"
+    d = _stage_commit(op)
+    if d is None:
+        out = "stale" if executed else "ignored"
+    else:
+        pushed = [(c.params or {}).get("message_type") for c in op.calls if c.tag == "INSERT.queue_messages" and isinstance(c.params, dict)]
+        out = "consumed" if "RunTask" in pushed else ("finished" if "CompleteTask" in pushed else "suspended")
+    return f"{out}.r{_rollbacks(op)}"
+
+
+def _abs_status(env) -> str:
+    """stage status as the model sees it: `finished` (printed SUCCEEDED) once the non-suspending result is recorded
+    (CompleteTask pushed) — the completion chain is not part of the race model"""
+    st = env.stage_row("g")["status"]
+    if st == "RUNNING" and any(c.startswith("CT(g)") or c.startswith("CS(g)") for _, c in env.pending()):
+        return "SUCCEEDED"
+    return st
+
+
+def _execs() -> int:
+    from harness import modeb as mb
+
+    return sum(1 for x in mb.LEDGER if x[0] == "g")
+
+
+def final_monitors(scn: Scn, reason: str, st: str, buffered: int, execs: int, wf: str, npending: int) -> list[tuple[str, str]]:
+    """Implementation-only oracles of C18 at quiescence (no model involved)."""
+    v: list[tuple[str, str]] = []
+    P, T = scn.persistent_total(), scn.transient_total()
+    desc = f"scenario {scn.key()}: stage {st}, mailbox {buffered}, task executed {execs}x, workflow {wf}, drain {reason}, {npending} message(s) pending"
+    if reason != "empty" or npending:
+        v.append((f"the engine did not reach quiescence — {desc}", SIG_STUCK))
+        return v
+    if st == "SUSPENDED" and buffered > 0:
+        v.append((f"a persistent signal sits in the mailbox of a SUSPENDED stage and nothing is queued: the signal is lost — {desc}", SIG_LOST))
+    need = 1 + min(scn.K, P)
+    if execs < need and not (st == "SUSPENDED" and buffered > 0):
+        v.append((f"{P} persistent signal(s) were sent but the task ran only {execs}x (expected at least {need}) — {desc}", SIG_LOST))
+    if P >= scn.K and (wf != "SUCCEEDED" or st != "SUCCEEDED" or execs != scn.K + 1) and not any(s == SIG_LOST for _, s in v):
+        v.append((f"{P} persistent signal(s) cover the task's {scn.K} suspension(s) but the workflow did not complete with exactly {scn.K + 1} executions — {desc}",
+                  SIG_LOST if execs <= scn.K else SIG_TWICE))
+    if execs > 1 + P + T or execs > scn.K + 1:
+        v.append((f"the task ran {execs}x with {P + T} signal(s) and {scn.K} suspension(s): a signal was applied twice — {desc}", SIG_TWICE))
+    applied = execs - 1
+    if not any(s in (SIG_LOST, SIG_TWICE) for _, s in v) and not (0 <= buffered - (P - applied) <= T):
+        v.append((f"mailbox accounting broken: {P} persistent signal(s), {applied} resume(s), {buffered} left in the mailbox — {desc}", SIG_MAILBOX))
+    return v
+
+
+def run_sched(lab: Lab, scn: Scn, snap, meta, direction: str, at: int, k: int, nest_at: int | None = None) -> dict:
+    """One schedule: A armed with B at DB call `at` (B optionally armed with C = the next signal at `nest_at`), then drain."""
+    mb = lab.mb
+    env = lab.env
+    a_code, b_code = {"sig": ("SG(g)", "RT(g)"), "run": ("RT(g)", "SG(g)"), "sig2": ("SG(g)", "SG(g)")}[direction]
+
+    def mk(e):
+        _fix(e, meta)
+        sgs = e.find("SG(g)")
+        a_row = e.find(a_code)[0]
+        b_row = sgs[1] if direction == "sig2" else e.find(b_code)[0]
+        arm_b = {}
+        if nest_at is not None:
+            arm_b = {nest_at: e.deliver_op("C", sgs[1])}
+        return e.deliver_op("A", a_row, {at: e.deliver_op("B", b_row, arm_b)})
+
+    out = mb.run_schedule(env, snap, mk)
+    sched = {"scn": asdict(scn), "dir": direction, "at": at, "k": k}
+    if nest_at is not None:
+        sched["nest_at"] = nest_at
+    res: dict[str, Any] = {"sched": sched, "blocked": bool(out.blocked), "skipped": bool(out.skipped), "trace": out.trace,
+                           "injected": len(out.ops) > 1 and bool(out.ops[0].injected), "inside": False, "violations": [], "impl": None, "b_calls": []}
+    if out.blocked:
+        return res
+    A, B = out.ops[0], out.ops[1]
+    res["inside"] = bool(A.injected) and at < len(A.calls)
+    res["b_calls"] = [c.idx for c in B.calls if c.legal] + [len(B.calls)]
+    row = env.stage_row("g")
+    execs = _execs()
+    pend = env.pending()
+    q = sum(1 for _, c in pend if c == "RT(g)")
+    if direction in ("sig", "run") and nest_at is None:
+        sig_op, run_op = (A, B) if direction == "sig" else (B, A)
+        race = (f"race st={_abs_status(env)} dv={row['version'] - meta['v0']} b={row['buffered']} q={q} e={execs} "
+                f"sig={sig_outcome(sig_op)} run={run_outcome(run_op, execs > 0)}")
+    else:
+        race = f"race st={_abs_status(env)} dv={row['version'] - meta['v0']} b={row['buffered']} q={q} e={execs}"
+    res["post_race"] = env.state_line()
+    reason, steps = env.drain(max_steps=80)
+    row = env.stage_row("g")
+    execs = _execs()
+    wf = env.wf_status()
+    npend = len(env.pending())
+    fin = f"fin st={row['status']} b={row['buffered']} q={npend} e={execs} wf={wf}"
+    res["impl"] = race + " | " + fin
+    res["final"] = {"drain": [reason, steps], "state": env.state_line(), "executions": execs}
+    res["violations"] = final_monitors(scn, reason, row["status"], row["buffered"], execs, wf, npend)
+    return res
+
+
+def points_of(lab: Lab, scn: Scn, snap, meta, direction: str) -> tuple[list, list[int]]:
+    mb = lab.mb
+    a_code = "RT(g)" if direction == "run" else "SG(g)"
+
+    def mk(e):
+        _fix(e, meta)
+        return e.deliver_op("A", e.find(a_code)[0])
+
+    calls = mb.enumerate_points(lab.env, snap, mk)
+    return calls, [c.idx for c in calls if c.legal] + [len(calls)]
+
+
+def unit(args: dict) -> dict:
+    """One (scenario, direction, shard): enumerate A's legal points, run the shard's schedules."""
+    _setup_process()
+    if "replay" in args:
+        return replay_race(args["replay"])
+    scn = scn_from(args["scn"])
+    direction = args["dir"]
+    shard = args.get("shard") or [1, 0]
+    lab = Lab()
+    res = {"schedules": [], "points": 0, "illegal_points": 0, "scn": asdict(scn), "dir": direction, "reads": 0}
+    try:
+        env, snap, meta = lab.base(scn)
+        res["v0"], res["b0"] = meta["v0"], meta["b0"]
+        calls, legal = points_of(lab, scn, snap, meta, direction)
+        res["reads"] = sum(1 for c in calls if c.kind == "exec" and _norm(c.sql).startswith(ROW_READ))
+        if shard[1] == 0:
+            res["points"] = len(legal)
+            res["illegal_points"] = len(calls) + 1 - len(legal)
+            res["calls"] = [c.text() for c in calls]
+        for n_k, at in enumerate(legal):
+            if n_k % shard[0] != shard[1]:
+                continue
+            k = window_of(calls, at)
+            r = run_sched(lab, scn, snap, meta, direction, at, k)
+            if args.get("nested"):
+                # third worker (the next pending signal) at every legal point of B as it ran inside A at `at`
+                for j in ([] if r["blocked"] else r["b_calls"]):
+                    res["schedules"].append(run_sched(lab, scn, snap, meta, direction, at, k, nest_at=j))
+            else:
+                res["schedules"].append(r)
+    finally:
+        lab.close()
+    return res
+
+
+# --------------------------------------------------------------------------------------
+# parent side
+# --------------------------------------------------------------------------------------
+
+def model_line(scn: Scn, direction: str, k: int, v0: int, b0: int) -> str:
+    post = ",".join("1" if x else "0" for x in scn.post) or "-"
+    return f"sigrace cas K={scn.K} dir={direction} k={k} p={1 if scn.p else 0} v={v0} b={b0} post={post}"
+
+
+def _pool(n: int):
+    import multiprocessing as mp
+
+    return mp.get_context("spawn").Pool(n)
+
+
+def plan_units(scns: list[Scn], thorough: bool) -> list[dict]:
+    units: list[dict] = []
+    for scn in scns:
+        d = asdict(scn)
+        units.append({"scn": d, "dir": "sig"})
+        # a persistent signal injected between the RunTask worker's reload and its CAS costs ~3 s of real backoff
+        # (execute_atomic's hard-coded inner retry): one such point per unit
+        n = 6 if scn.p else 1
+        for r in range(n):
+            units.append({"scn": d, "dir": "run", "shard": [n, r]})
+        if any(scn.post) and scn.p:
+            units.append({"scn": d, "dir": "sig2"})
+            if thorough:
+                for r in range(6):
+                    units.append({"scn": d, "dir": "run", "shard": [6, r], "nested": True})
+    units.sort(key=lambda u: (0 if u.get("nested") else 1, 0 if u["dir"] == "run" else 1))
+    return units
+
+
+def digest(ctx, results: list[dict]) -> None:
+    mbx = ctx.extra.setdefault("modeb_race", {"points": 0, "illegal_points": 0, "schedules": 0, "blocked": 0, "compared": 0})
+    inputs, lines, impl = [], [], []
+    allsched = []
+    for res in results:
+        mbx["points"] += res["points"]
+        mbx["illegal_points"] += res["illegal_points"]
+        if "calls" in res:
+            mbx.setdefault("calls", {})[f"{Scn(**{**res['scn'], 'post': tuple(res['scn']['post'])}).key()}/{res['dir']}"] = " ".join(res["calls"])
+        for r in res["schedules"]:
+            allsched.append((res, r))
+    allsched.sort(key=lambda x: json.dumps(x[1]["sched"], sort_keys=True))
+    for res, r in allsched:
+        sched = r["sched"]
+        scn = scn_from(sched["scn"])
+        ctx.count({"race": sched}, nontrivial=r["inside"])
+        mbx["schedules"] += 1
+        ctx.tag("race:dir=" + sched["dir"] + ("+nested" if "nest_at" in sched else ""))
+        if r["blocked"]:
+            mbx["blocked"] += 1
+            ctx.tag("race:blocked")
+            continue
+        if r["skipped"]:
+            ctx.tag("race:skipped-intxn")
+        ctx.tag(f"race:scn={scn.key()}")
+        ctx.tag(f"race:{sched['dir']}:k={sched['k']}" + (":inside" if r["inside"] else ""))
+        replay_obj = {"modeb": sched, "trace": r["trace"], "post_race": r.get("post_race"), "final": r.get("final"), "observed": r["impl"]}
+        for what, sig in r["violations"]:
+            ctx.violation(f"{what}; schedule: direction {sched['dir']}, B injected before DB call {sched['at']} of A (window k={sched['k']})", sig, replay_obj)
+        if r["inside"]:
+            ctx.sample({"schedule": sched, "observed": r["impl"]})
+        if sched["dir"] in ("sig", "run") and "nest_at" not in sched:
+            for part in r["impl"].split(" "):
+                if part.startswith(("sig=", "run=")):
+                    ctx.tag("race:" + part.split(".")[0])
+            inputs.append(sched)
+            lines.append(model_line(scn, sched["dir"], sched["k"], res["v0"], res["b0"]))
+            impl.append(r["impl"])
+    if lines:
+        bad = ctx.correspond(RACE_SUITE, inputs, lines, impl)
+        mbx["compared"] += len(lines)
+        mbx["mismatches"] = mbx.get("mismatches", 0) + bad
+
+
+def replay_units() -> list[dict]:
+    """committed Mode B witnesses replays/C18/*.json (files whose replay object has a `modeb` schedule): run first"""
+    from harness import core
+
+    d = core.VERIF / "replays" / "C18"
+    out = []
+    for f in sorted(d.glob("*.json")) if d.is_dir() else []:
+        body = json.loads(f.read_text())
+        rp = body.get("replay") or body
+        if isinstance(rp, dict) and "modeb" in rp:
+            out.append({"replay": rp["modeb"], "file": f.name})
+    return out
+
+
+def run_race(ctx) -> None:
+    os.environ.setdefault("STABILIZE_MAX_STAGE_WAIT_RETRIES", "2")
+    t0 = time.time()
+    units = replay_units() + plan_units(scenarios(ctx.thorough), ctx.thorough)
+    with _pool(min(16, os.cpu_count() or 4)) as pool:
+        results = pool.map(unit, units, chunksize=1)
+    for u, r in zip(units, results):
+        if "replay" in u:
+            ctx.count({"replay": u["file"]}, nontrivial=True)
+            ctx.tag("race:replay")
+            for what, sig in r["violations"]:
+                ctx.violation(f"{what} (regression corpus {u['file']})", sig,
+                              {"modeb": r["sched"], "trace": r["trace"], "final": r.get("final"), "observed": r.get("impl"), "replay_file": u["file"]})
+    digest(ctx, [r for u, r in zip(units, results) if "replay" not in u])
+    mbx = ctx.extra.setdefault("modeb_race", {})
+    mbx["units"] = len(units)
+    mbx["scenarios"] = [s.key() for s in scenarios(ctx.thorough)]
+    mbx["wall_s"] = round(time.time() - t0, 1)
 
 
 def run(ctx) -> None:
     engine_suites.run_for(ctx, "C18")
+    run_race(ctx)
 
 
 def search(ctx) -> None:
     engine_suites.search_for(ctx, "C18")
+    if not ctx.monitor_hits:
+        ctx.tier = "thorough"
+        run_race(ctx)
+
+
+# --------------------------------------------------------------------------------------
+# replay
+# --------------------------------------------------------------------------------------
+
+def replay_race(sched: dict) -> dict:
+    """Re-run one Mode B schedule {scn, dir, at, k[, nest_at]} against the implementation.  The exact DB-call index is used
+    when it is still a legal point of that window; otherwise the first legal point of window `k`."""
+    _setup_process()
+    scn = scn_from(sched["scn"])
+    lab = Lab()
+    try:
+        env, snap, meta = lab.base(scn)
+        calls, legal = points_of(lab, scn, snap, meta, sched["dir"])
+        at, k = sched.get("at"), sched.get("k")
+        if at not in legal or (k is not None and window_of(calls, at) != k):
+            cands = [i for i in legal if k is None or window_of(calls, i) == k]
+            if not cands:
+                return {"sched": sched, "violations": [], "trace": [], "note": f"no legal injection point in window {k}", "calls": [c.text() for c in calls]}
+            at = cands[0]
+        r = run_sched(lab, scn, snap, meta, sched["dir"], at, window_of(calls, at), nest_at=sched.get("nest_at"))
+        r["calls"] = [c.text() for c in calls]
+        return r
+    finally:
+        lab.close()
 
 
 def replay(ctx, body) -> int:
+    rp = body.get("replay") or body
+    if isinstance(rp, dict) and "modeb" in rp:
+        r = replay_race(rp["modeb"])
+        s = r["sched"]
+        print(f"scenario {scn_from(s['scn']).key()}: direction {s['dir']} (A = {'signal handler' if s['dir'] != 'run' else 'RunTask handler'}), "
+              f"B injected before DB call {s.get('at')} of A, window k={s.get('k')}")
+        print("  DB calls of A (un-armed; * = inside a write transaction):", " ".join(r.get("calls", [])))
+        for line in r.get("trace", []):
+            print("  ", line)
+        if r.get("note"):
+            print("  note:", r["note"])
+        if r.get("blocked"):
+            print("  schedule blocked by SQLite locking (not a legal interleaving)")
+        print("  after the race :", r.get("post_race"))
+        print("  after the drain:", (r.get("final") or {}).get("state"), (r.get("final") or {}).get("drain"))
+        print("  observed       :", r.get("impl"))
+        out = ctx.lean([model_line(scn_from(s["scn"]), s["dir"], s["k"], 0, scn_from(s["scn"]).pre)]) if s["dir"] in ("sig", "run") and "nest_at" not in s else None
+        if out:
+            print("  model (v=0)    :", out[0])
+        for what, sig in r["violations"]:
+            print(f"FAILS: {what}  [{sig}]")
+        if not r["violations"]:
+            print("replay: property held on this input")
+        return 1 if r["violations"] else 0
     return engine_suites.replay(ctx, body)
